@@ -2718,6 +2718,13 @@ class QuaternionArray(np.ndarray):
         if method.lower() not in ['chiaverini', 'hughes', 'itzhack', 'sarabandi', 'shepperd']:
             raise ValueError(f"Method '{method}' not available. Options are: 'chiaverini', 'hughes', 'itzhack', 'sarabandi', and 'shepperd'.")
         _assert_iterables(DCM, 'Direction Cosine Matrices')
+        DCM = np.array(DCM)
+        if DCM.ndim != 3 or DCM.shape[-2:] != (3, 3):
+            raise ValueError(f"Expected an array of shape (N, 3, 3), got {DCM.shape}.")
+        in_SO3 = np.allclose(np.linalg.det(DCM), np.ones(DCM.shape[0]))
+        in_SO3 &= np.allclose([R@R.T for R in DCM], np.identity(3))
+        if not in_SO3:
+            raise ValueError("Given Direction Cosine Matrices are not in SO(3).")
         # Allocate local quaternion array
         quaternion_array = np.zeros((DCM.shape[0], 4))
         try:
